@@ -158,6 +158,9 @@ def correspond(histories, go, ml, mode):
         for idx, op in enumerate(ops):
             if op.startswith("corrupt "):
                 corrupted.add(op.split()[2])
+            if op.startswith("rootset ") and "cache=none" not in hdr:
+                # the model has no node cache: with one, a perturbed root may be served from the cache
+                corrupted.add(op.split()[1])
             if idx >= len(g) or idx >= len(m):
                 dis.append((hid, idx, op, "missing", "missing")); break
             nocache = "cache=none" in hdr
